@@ -602,6 +602,7 @@ def rule_h(ck, R):
 
 
 def run(ck):
+    ck.rule('C08.j', 'the receive sink (continuable sink) stores min(n, free space), reports an overflow exactly when octets were dropped, and always consumes what it is given (C09.a re-evaluated)')
     ck.rule('C08.i', 'own frames are received as they were sent for every history on the channel: regp_recv does not override the SLIP decoder\'s state after an invalid escape sequence (the decoder knows whether the offending octet ended the frame), so no intact frame behind a damaged one is skipped (C06.f re-evaluated)')
     ck.rule('C08.a', 'the code tables of doc/regp.txt (types, option bits, response codes, meta codes, version) equal the enumerators/macros')
     ck.rule('C08.b', 'layout: exact bit summary of make_motv = version[3:0] type[7:4] options[11:8] meta[15:12]; header fields written and read big-endian at words 0,1,2-3,4-5,6,7 (C15 codecs)')
@@ -660,3 +661,6 @@ def run(ck):
     finally:
         ck.rule, ck.verdict, ck.violation, ck.broken, ck.floor, ck.holds = keep
         ck.not_decided[:] = nd
+    from .common import reevaluate
+    reevaluate(ck, 'C08.j', 'c09', lambda r, k: r == 'C09.a',
+               'an own frame that fits the receive block exactly is stored completely and not reported as an overflow')
